@@ -3,6 +3,7 @@ import Ggql.Gen.Skip
 import Ggql.Gen.Locks
 import Ggql.Gen.Coerce
 import Ggql.Gen.Tables
+import Ggql.Gen.Intro
 open Ggql Ggql.Driver
 
 def genTables : Tables :=
@@ -16,6 +17,7 @@ def genTables : Tables :=
     outString := Gen.coerceOutString, inString := Gen.coerceInString,
     outId := Gen.coerceOutId, inId := Gen.coerceInId,
     outBoolean := Gen.coerceOutBoolean, inBoolean := Gen.coerceInBoolean,
-    outTime := Gen.coerceOutTime, inTime := Gen.coerceInTime }
+    outTime := Gen.coerceOutTime, inTime := Gen.coerceInTime,
+    introTable := Gen.introTable, locateTable := Gen.locateTable, metaLiteral := Gen.metaContainerLiteral }
 
 def main (args : List String) : IO Unit := run genTables args
